@@ -373,3 +373,33 @@ Definition flat_okb (items : list citem) (tail : ctail) : bool :=
   | TPos ps => Nat.leb 2 (length items + length ps)
   | TCmds _ => false
   end.
+
+(* all items of a level tree *)
+Fixpoint all_items (l : level) : list citem :=
+  match l with
+  | Level items tail =>
+    items ++ match tail with
+             | TCmds cs => all_items_cs cs
+             | _ => []
+             end
+  end
+with all_items_cs (cs : clist) : list citem :=
+  match cs with
+  | CNil => []
+  | CCons _ _ sub rest => all_items sub ++ all_items_cs rest
+  end.
+
+(* a chain of subcommands: every level has at least one item and at most one subcommand; names are
+   unique within a level and between a level and everything below it *)
+Fixpoint chain_okb (l : level) : bool :=
+  match l with
+  | Level items tail =>
+    match tail with
+    | TCmds (CCons _ _ sub CNil) =>
+      disjointb items && forallb (fun it => named_ok (item_named it)) items && Nat.leb 1 (length items) &&
+      chain_okb sub &&
+      forallb (fun it => forallb (fun it' => negb (share (item_named it) (item_named it'))) (all_items sub)) items
+    | TCmds _ => false
+    | _ => flat_okb items tail
+    end
+  end.
